@@ -163,9 +163,13 @@ impl RouterHandle {
                 BrokenConnectionErrorKind::ChannelError.into()
             })?;
 
+        #[cfg(scylla_verif)]
+        crate::verif_hooks::emit("conn.send_request.enqueued", request_id, 0);
         let task_response = receiver.await.map_err(|_| -> BrokenConnectionError {
             BrokenConnectionErrorKind::ChannelError.into()
         })?;
+        #[cfg(scylla_verif)]
+        crate::verif_hooks::emit("conn.send_request.answered", request_id, 0);
 
         // Response was successfully received, so it's time to disable
         // notification about orphaning.
@@ -1596,6 +1600,8 @@ impl Connection {
         let response_handlers: HashMap<i16, ResponseHandler> =
             handler_map.into_inner().unwrap().into_handlers();
 
+        #[cfg(scylla_verif)]
+        crate::verif_hooks::emit("router.teardown", response_handlers.len() as u64, 0);
         for (_, handler) in response_handlers {
             // Ignore sending error, request was dropped
             let _ = handler.response_sender.send(Err(error.clone().into()));
@@ -1620,6 +1626,8 @@ impl Connection {
                 opcode,
                 body,
             };
+            #[cfg(scylla_verif)]
+            crate::verif_hooks::pause_async("conn.reader.after_frame").await;
 
             match params.stream.cmp(&-1) {
                 Ordering::Less => {
@@ -1708,6 +1716,8 @@ impl Connection {
                 let req_data: &[u8] = req.get_data();
                 total_sent += req_data.len();
                 num_requests += 1;
+                #[cfg(scylla_verif)]
+                crate::verif_hooks::pause_async("conn.writer.before_write").await;
                 write_half
                     .write_all(req_data)
                     .await
@@ -2361,6 +2371,8 @@ impl ResponseHandlerMap {
         if let Some(stream_id) = self.stream_set.allocate() {
             self.request_to_stream
                 .insert(response_handler.request_id, stream_id);
+            #[cfg(scylla_verif)]
+            crate::verif_hooks::emit("rhm.alloc", response_handler.request_id, stream_id as u64);
             let prev_handler = self.handlers.insert(stream_id, response_handler);
             assert!(prev_handler.is_none());
 
@@ -2378,6 +2390,8 @@ impl ResponseHandlerMap {
                 "Orphaning stream_id = {} associated with request_id = {}",
                 stream_id, request_id
             );
+            #[cfg(scylla_verif)]
+            crate::verif_hooks::emit("rhm.orphan", request_id, *stream_id as u64);
             self.orphanage_tracker.insert(*stream_id);
             self.handlers.remove(stream_id);
             self.request_to_stream.remove(&request_id);
@@ -2390,6 +2404,8 @@ impl ResponseHandlerMap {
     }
 
     fn lookup(&mut self, stream_id: i16) -> HandlerLookupResult {
+        #[cfg(scylla_verif)]
+        crate::verif_hooks::emit("rhm.lookup", 0, stream_id as u64);
         self.stream_set.free(stream_id);
 
         if self.orphanage_tracker.contains(stream_id) {
@@ -2446,6 +2462,152 @@ impl StreamIdSet {
         let block_id = stream_id as usize / 64;
         let off = stream_id as usize % 64;
         self.used_bitmap[block_id] &= !(1 << off);
+    }
+}
+
+/// Verification hook: drives the private [`ResponseHandlerMap`] directly and
+/// checks its structural invariants (see `crate::verif_hooks`).
+#[cfg(scylla_verif)]
+#[allow(missing_docs, unreachable_pub)]
+pub(crate) mod verif {
+    use super::{HandlerLookupResult, RequestId, ResponseHandler, ResponseHandlerMap};
+    use std::collections::HashSet;
+    use tokio::sync::oneshot;
+
+    /// Same values as the `cfg(test)` `Default` of [`super::ConnectionConfig`].
+    pub(crate) fn default_connection_config() -> super::ConnectionConfig {
+        super::ConnectionConfig {
+            local_ip_address: None,
+            shard_aware_local_port_range:
+                crate::routing::ShardAwarePortRange::EPHEMERAL_PORT_RANGE,
+            compression: None,
+            tcp_socket_options: super::TcpSocketOptions::default(),
+            timestamp_generator: None,
+            event_sender: None,
+            tls_provider: None,
+            connect_timeout: std::time::Duration::from_secs(5),
+            default_consistency: Default::default(),
+            authenticator: None,
+            address_translator: None,
+            write_coalescing_delay: Some(super::WriteCoalescingDelay::SmallNondeterministic),
+            keepalive_interval: None,
+            keepalive_timeout: None,
+            tablet_sender: None,
+            identity: Default::default(),
+        }
+    }
+
+    #[derive(Debug, Clone, Copy, PartialEq, Eq)]
+    pub enum LookupOutcome {
+        Orphaned,
+        Handler(u64),
+        Missing,
+    }
+
+    pub struct HandlerMapProbe {
+        map: ResponseHandlerMap,
+    }
+
+    impl Default for HandlerMapProbe {
+        fn default() -> Self {
+            Self::new()
+        }
+    }
+
+    impl HandlerMapProbe {
+        pub fn new() -> Self {
+            Self {
+                map: ResponseHandlerMap::new(),
+            }
+        }
+
+        /// `None`: the map reported that no stream id is free.
+        pub fn allocate(&mut self, request_id: RequestId) -> Option<i16> {
+            let (response_sender, _receiver) = oneshot::channel();
+            self.map
+                .allocate(ResponseHandler {
+                    response_sender,
+                    request_id,
+                })
+                .ok()
+        }
+
+        pub fn orphan(&mut self, request_id: RequestId) {
+            self.map.orphan(request_id)
+        }
+
+        /// `stream_id` must be non-negative (the reader never looks up others).
+        pub fn lookup(&mut self, stream_id: i16) -> LookupOutcome {
+            assert!(stream_id >= 0);
+            match self.map.lookup(stream_id) {
+                HandlerLookupResult::Orphaned => LookupOutcome::Orphaned,
+                HandlerLookupResult::Handler(h) => LookupOutcome::Handler(h.request_id),
+                HandlerLookupResult::Missing => LookupOutcome::Missing,
+            }
+        }
+
+        pub fn into_handlers(self) -> Vec<(i16, u64)> {
+            self.map
+                .into_handlers()
+                .into_iter()
+                .map(|(s, h)| (s, h.request_id))
+                .collect()
+        }
+
+        pub fn old_orphans_count(&self) -> usize {
+            self.map.old_orphans_count()
+        }
+
+        /// Walks the structure: the used-id bitmap is exactly the disjoint union of
+        /// waiting handlers and orphans, and `request_to_stream` is a bijection onto
+        /// the waiting handlers.
+        pub fn check_invariants(&self) -> Result<(), String> {
+            let m = &self.map;
+            let mut used = HashSet::new();
+            for (block_id, block) in m.stream_set.used_bitmap.iter().enumerate() {
+                let mut b = *block;
+                while b != 0 {
+                    let off = b.trailing_zeros();
+                    used.insert((block_id * 64 + off as usize) as i16);
+                    b &= b - 1;
+                }
+            }
+            let handlers: HashSet<i16> = m.handlers.keys().copied().collect();
+            let orphans: HashSet<i16> = m.orphanage_tracker.orphans.keys().copied().collect();
+            if let Some(s) = handlers.intersection(&orphans).next() {
+                return Err(format!("stream {s} is both waiting and orphaned"));
+            }
+            let union: HashSet<i16> = handlers.union(&orphans).copied().collect();
+            if union != used {
+                let mut d: Vec<_> = union.symmetric_difference(&used).copied().collect();
+                d.sort();
+                d.truncate(8);
+                return Err(format!(
+                    "bitmap ({}) != handlers ({}) + orphans ({}); differing ids {:?}",
+                    used.len(),
+                    handlers.len(),
+                    orphans.len(),
+                    d
+                ));
+            }
+            if m.orphanage_tracker.by_orphaning_times.len() != orphans.len() {
+                return Err("orphan indexes disagree".to_owned());
+            }
+            if m.request_to_stream.len() != m.handlers.len() {
+                return Err(format!(
+                    "request_to_stream has {} entries, handlers {}",
+                    m.request_to_stream.len(),
+                    m.handlers.len()
+                ));
+            }
+            for (req, s) in m.request_to_stream.iter() {
+                match m.handlers.get(s) {
+                    Some(h) if h.request_id == *req => {}
+                    _ => return Err(format!("request {req} maps to stream {s} with another owner")),
+                }
+            }
+            Ok(())
+        }
     }
 }
 
